@@ -85,6 +85,33 @@ def cases_utils(tier):
     yield "immutable_array", {"what": "immutable_array"}
     yield "broadcast_arrays", {"what": "broadcast_arrays"}
     yield "check_enum_values", {"what": "check_enum"}
+    yield "converters", {"what": "converters"}
+
+
+CONVERTERS = (("_convert_1d_array", np.float64, 1), ("_convert_1d_array_intc", np.intc, 1), ("_convert_1d_array_bool", np.bool_, 1),
+              ("_convert_2d_array", np.float64, 2), ("_convert_enum_array", np.ubyte, 1))
+
+
+def check_converters(T, get, prefix, only=None):
+    """Canonical form of array-valued fields: whatever array-like the user gives (scalar, list, tuple, ndarray of another dtype,
+    read-only or not), the stored array has the declared dtype and rank, equal values, is a fresh object and is read-only."""
+    for name, dtype, ndim in CONVERTERS:
+        if only is not None and name not in only:
+            continue
+        f = get(name)
+        T.prove(prefix + ".converters.none_stays_none", f(None) is None, name)
+        given = [1, [1, 0, 1], (0, 1), np.array([1, 0, 1]), np.array([1, 0, 1], dtype=np.int64), np.array([1.0, 0.0]), np.array([True, False]), np.array([2, 1], dtype=np.ubyte),
+                 np.array(1), np.array([[1, 0], [0, 1]]) if ndim == 2 else np.array([0, 1], dtype=np.int8)]
+        for g in given:
+            ro = isinstance(g, np.ndarray) and g.ndim > 0
+            if ro:
+                g = g.copy()
+                g.setflags(write=False)
+            r = f(g)
+            want = np.array(g, dtype=dtype, ndmin=ndim)
+            T.prove(prefix + ".converters.stored_array_has_the_declared_dtype_and_rank", isinstance(r, np.ndarray) and np.dtype(getattr(r, "sdtype", None) or r.dtype) == np.dtype(dtype) and r.ndim == ndim, "%s(%r) -> %r" % (name, g, r))
+            T.prove(prefix + ".converters.values_preserved", r.shape == want.shape and bool(np.all(np.asarray(r) == want)), "%s(%r) -> %r" % (name, g, r))
+            T.prove(prefix + ".converters.stored_array_is_a_read_only_copy", (r is not g) and not r.flags.writeable and not (isinstance(g, np.ndarray) and np.shares_memory(np.asarray(r), g)), "%s(%r)" % (name, g))
 
 
 def scn_utils(T, case):
@@ -139,6 +166,9 @@ def scn_utils(T, case):
         ra, rb = f(a, b)
         T.prove("C18.broadcast_arrays.common_shape_read_only", tuple(ra.shape) == (3,) and tuple(rb.shape) == (3,) and not ra.flags.writeable and not rb.flags.writeable)
         T.prove("C18.broadcast_arrays.values_preserved", T.all([T.same(ra[i], a[0]) & T.same(rb[i], b[i]) for i in range(3)]))
+        return
+    if what == "converters":
+        check_converters(T, get, "C18")
         return
     f = get("check_enum_values")
     from ropt.enums import BoundaryType
@@ -285,6 +315,7 @@ def scn_validators(T, case):
         me = Model(coefficients=_imm(T, A), lower_bounds=_imm(T, T.real("lb", (1,))), upper_bounds=_imm(T, T.real("ub", (1,))))
         me.model_dump = lambda round_trip=False: {"coefficients": me.coefficients, "lower_bounds": me.lower_bounds, "upper_bounds": me.upper_bounds}
         me._immutable()
+        fields0 = {k: getattr(me, k) for k in ("coefficients", "lower_bounds", "upper_bounds")}
         made = []
 
         class Built(Model):
@@ -315,6 +346,9 @@ def scn_validators(T, case):
             T.prove("C18.linear.rejects_only_wrong_column_count", case["cols"] != 2)
             return
         T.prove("C18.linear.wrong_column_count_is_rejected", case["cols"] == 2)
+        # frame: the (validated, frozen) object the method is called on is never changed - it may be shared with other configurations
+        T.prove("C18.linear.apply_transformation_leaves_the_frozen_object_unchanged", me._is_immutable is True and me.coefficients is fields0["coefficients"]
+                and me.lower_bounds is fields0["lower_bounds"] and me.upper_bounds is fields0["upper_bounds"] and T.same(me.coefficients, A))
         if case["tr"]:
             T.prove("C18.linear.transformed_object_is_immutable_with_read_only_arrays", out is not me and out._is_immutable is True and all(not a.flags.writeable for a in out.arrays().values()) and len(out.arrays()) == 3)
         else:
@@ -341,7 +375,12 @@ def scn_validators(T, case):
             return me
 
         tr = types.SimpleNamespace(variables=_Scaler(T, n)) if case["tr"] else None
-        first = cls.fix_perturbations(mk(m, case["ptypes"], [3]), variables, tr)
+        given = mk(m, case["ptypes"], [3])
+        given0 = {k: getattr(given, k) for k in ("perturbation_magnitudes", "perturbation_types", "boundary_types")}
+        first = cls.fix_perturbations(given, variables, tr)
+        # frame: the frozen object the method is called on is never changed (it may be shared by several configurations)
+        T.prove("C18.gradient.fix_perturbations.leaves_the_frozen_object_unchanged", given._is_immutable is True and all(getattr(given, k) is v0 for k, v0 in given0.items())
+                and tuple(given.perturbation_magnitudes.shape) == (1,) and T.same(given.perturbation_magnitudes, m) and [int(t) for t in given.perturbation_types] == [int(t) for t in np.atleast_1d(np.array(case["ptypes"]))][:len(given.perturbation_types)])
         for k, a in first.arrays().items():
             T.prove("C18.gradient.fix_perturbations.stored_arrays_are_read_only", not a.flags.writeable, k)
             T.prove("C18.gradient.fix_perturbations.arrays_have_full_length", tuple(a.shape) == (n,), k)
@@ -376,6 +415,17 @@ def scn_validators(T, case):
         got = raw(cls, "_pass_enopt_config_unchanged")(inst, lambda x: handler_calls.append(x) or "validated")
         T.prove("C18.enopt.validated_instance_passes_unchanged", got is inst and handler_calls == [])
         got2 = raw(cls, "_pass_enopt_config_unchanged")({"variables": {}}, lambda x: handler_calls.append(x) or "validated")
+        # pydantic applies model validators inside-out in definition order (library contract): the short-cut for validated instances
+        # only protects the after-validators defined BEFORE it, so every validator that applies the transforms of the context must precede it
+        import inspect
+
+        decs = real_cfg_cls.__pydantic_decorators__.model_validators
+        order = list(decs)
+        wraps = [k for k, d in decs.items() if d.info.mode == "wrap"]
+        # the validators that read the validation context (they apply the transforms) are the ones that are not idempotent
+        ctx_validators = [k for k, d in decs.items() if d.info.mode == "after" and len(inspect.signature(d.func).parameters) >= 2]
+        T.prove("C18.enopt.instance_short_cut_encloses_every_validator_that_applies_the_context", len(wraps) == 1 and all(order.index(k) < order.index(wraps[0]) for k in ctx_validators),
+                "order: %r" % (order,))
         T.prove("C18.enopt.dictionaries_are_validated", got2 == "validated" and len(handler_calls) == 1)
 
 
@@ -440,6 +490,10 @@ def _equal(a, b):
     return a == b
 
 
+def subs_by_path(subs, path):
+    return next(o for p, o in subs if p == path)
+
+
 def scn_native(T, case):
     import json
 
@@ -475,7 +529,24 @@ def scn_native(T, case):
     T.prove("C18.native.canonical_weights_sum_to_one", abs(float(cfg.realizations.weights.sum()) - 1) < 1e-12 and abs(float(cfg.objectives.weights.sum()) - 1) < 1e-12)
     T.prove("C18.native.thresholds_clamped", cfg.realizations.realization_min_success <= cfg.realizations.weights.size and cfg.gradient.perturbation_min_success <= cfg.gradient.number_of_perturbations)
     T.prove("C18.native.arrays_broadcast_to_full_length", all(a.shape == (n,) for a in (cfg.variables.lower_bounds, cfg.variables.upper_bounds, cfg.gradient.perturbation_magnitudes, cfg.gradient.boundary_types, cfg.gradient.perturbation_types)))
+    snap = [(path, obj, obj.copy()) for kind, path, obj in found if kind == "array"]
+    subs = [(path, obj) for kind, path, obj in found if kind == "model"]
     T.prove("C18.native.validating_a_validated_object_returns_it", EnOptConfig.model_validate(cfg) is cfg)
+    again = EnOptConfig.model_validate(cfg, context=tr)
+    found2 = []
+    _walk(again, "config", set(), found2)
+    T.prove("C18.native.revalidating_the_object_with_its_context_yields_an_equivalent_configuration", _equal(again, cfg))
+    T.prove("C18.native.revalidation_leaves_the_validated_object_untouched", all(a is o for (_, o), (k, _, a) in zip(subs, [f for f in found2 if f[0] == "model"])) if again is cfg else True)
+    T.prove("C18.native.revalidation_changes_no_stored_array", all(np.array_equal(obj, old, equal_nan=True) for _, obj, old in snap), "")
+    # validated sub-configurations may be shared: using them in another configuration does not change them
+    d2 = dict(d)
+    d2["gradient"] = cfg.gradient
+    if cfg.linear_constraints is not None:
+        d2["linear_constraints"] = cfg.linear_constraints
+    other = EnOptConfig.model_validate(d2, context=tr)
+    T.prove("C18.native.sharing_validated_sub_configurations_does_not_change_them", all(np.array_equal(obj, old, equal_nan=True) for _, obj, old in snap)
+            and cfg.gradient is subs_by_path(subs, "config.gradient"))
+    del other
     dumped = cfg.model_dump(round_trip=True)
     T.prove("C18.native.revalidating_the_dumped_dictionary_is_idempotent", _equal(EnOptConfig.model_validate(dumped), cfg))
 
